@@ -107,7 +107,20 @@ CORE_NAMES = ["secret", "__class__", "__dict__", "__init__", "prop", "delete", "
 
 ENGINE_SHAPES = ["forloop", "tablerowloop", "block", "now", "today", "str", "int", "float",
                  "list", "dict", "tuple", "bool", "nil", "undef", "range", "markup", "decimal",
-                 "listofdict"]
+                 "listofdict",
+                 # remaining common value kinds that cannot carry a spy hook
+                 "set", "frozenset", "bytes", "datetime", "date", "time", "timedelta", "complex",
+                 "fraction", "generator", "iterator", "mapobj", "dictkeys", "ntplain", "ntsubplain",
+                 "dcplain_nospy", "simplens_nospy"]
+
+# shapes whose VALUE is itself a Python-internal object the host chose to expose: that object
+# reaching a filter / being stringified is not the subject (only what lies behind it is)
+# variants of a kind already swept in full: the quick tier thins their plain string/math filter sites
+SECONDARY_SHAPES = {"raiser_type", "raiser_index", "raiser_attr", "raiser_value", "typednt", "ntuplesub",
+                    "dc_frozen", "dc_slots", "userstring", "simplens", "dictget", "tuplesub", "userlist",
+                    "time", "timedelta", "complex", "fraction", "frozenset", "mapobj", "iterator",
+                    "ntplain", "dcplain_nospy", "simplens_nospy", "date"}
+RELAXED_PY_SHAPES = {"generator", "iterator", "mapobj", "dictkeys"}
 
 WRAP = {
     "forloop": ("{% for zz in arr limit: 1 %}{% assign obj = forloop %}{% assign objs = forloop, forloop %}{% endfor %}", ""),
@@ -132,7 +145,7 @@ ENGINE_VISIBLE = {
 # names that legitimately resolve somewhere in every case: keys the helper drops expose and the
 # variables the harness binds (they are never drawn as hidden NAMEs)
 VAR_NAMES = {"obj", "objs", "box", "k", "kd", "arr", "d", "s", "num", "msgs", "translations",
-             "now", "today", "v", "w", "u", "x", "it", "zz", "yy", "c", "z", "kk", "p_with", "p_for"}
+             "now", "today", "pd", "l", "v", "w", "u", "x", "it", "zz", "yy", "c", "z", "kk", "p_with", "p_for"}
 ALWAYS_VISIBLE = set(O.EXPOSED_KEYS) | {"a"} | VAR_NAMES
 LOOP_NAMES = ENGINE_VISIBLE["forloop"] | ENGINE_VISIBLE["tablerowloop"] | ENGINE_VISIBLE["block"]
 I18N_SPECIAL = {"count", "context", "plural"}
@@ -286,6 +299,8 @@ class RecFilter:
 
 
 def _mask(out: str, names: tuple[str, ...], digits: bool) -> str:
+    if "0x" in out:   # repr of a host-exposed iterator / callable carries its address
+        out = re.sub(r"0x[0-9a-fA-F]+", "0x#", out)
     for n in sorted(set(names), key=len, reverse=True):
         if n:
             out = out.replace(n, "\x00")
@@ -300,6 +315,65 @@ def _site_family(site_id: str) -> str:
     """filter.map.g4 -> filter.map ; lambda.sort.l2 -> lambda.sort ; others unchanged."""
     parts = site_id.split(".")
     return ".".join(parts[:2])
+
+
+_PlainNt = __import__("collections").namedtuple("_PlainNt", ["label", "qty"])
+
+
+class _PlainNtSub(_PlainNt):
+    """A named tuple subclass that is NOT a spy: only the canary scan and the relation decide."""
+
+    API_TOKEN = "CNRY_classattr_API_TOKEN_ntsubplain"
+
+    @property
+    def balance(self) -> str:
+        return "CNRY_property_balance_ntsubplain"
+
+    def describe(self) -> str:
+        return "CNRY_methodresult_describe_ntsubplain"
+
+    def __str__(self) -> str:
+        return "PUBSTR_NTSUBPLAIN"
+
+
+@__import__("dataclasses").dataclass
+class _PlainDc:
+    label: str = "CNRY_attr_label_dcplainnospy"
+    qty: int = 3
+
+    def __str__(self) -> str:
+        return "PUBSTR_DCPLAIN"
+
+
+class _PlainNs(types.SimpleNamespace):
+    def __str__(self) -> str:
+        return "PUBSTR_NS"
+
+
+def _gen(i: int):  # noqa: ANN202
+    yield f"PUBG{i}A"
+    yield f"PUBG{i}B"
+
+
+_EXTRA_VALUES: dict[str, Any] = {
+    "set": lambda i: {f"PUBSET{i}"},
+    "frozenset": lambda i: frozenset({f"PUBFS{i}"}),
+    "bytes": lambda i: b"PUBBYTES%d" % i,
+    "datetime": lambda i: _dt.datetime(2020, 1, 2 + i, 3, 4, 5),
+    "date": lambda i: _dt.date(2020, 1, 2 + i),
+    "time": lambda i: _dt.time(3, 4, 5 + i),
+    "timedelta": lambda i: _dt.timedelta(days=1 + i, seconds=5),
+    "complex": lambda i: complex(1 + i, 2),
+    "fraction": lambda i: __import__("fractions").Fraction(1 + i, 3),
+    "generator": _gen,
+    "iterator": lambda i: iter([f"PUBI{i}A", f"PUBI{i}B"]),
+    "mapobj": lambda i: map(str.upper, [f"pubm{i}a", f"pubm{i}b"]),
+    "dictkeys": lambda i: {f"PUBK{i}": 1, "title": 2}.keys(),
+    "ntplain": lambda i: _PlainNt(f"PUB_PNT_{i}", i),
+    "ntsubplain": lambda i: _PlainNtSub(f"PUB_PNTS_{i}", i),
+    "dcplain_nospy": lambda i: _PlainDc(),
+    "simplens_nospy": lambda i: _PlainNs(secret="CNRY_attr_secret_simplensnospy", label="CNRY_attr_label_simplensnospy"),
+}
 
 
 class Runner:
@@ -332,6 +406,8 @@ class Runner:
     # -- data -------------------------------------------------------------------------
     def builtin_value(self, shape: str, i: int) -> Any:
         M = self.Markup
+        if shape in _EXTRA_VALUES:
+            return _EXTRA_VALUES[shape](i)
         return {
             "str": f"PUBS{i}", "int": 40 + i, "float": 1.5 + i, "list": [f"PUBL{i}A", f"PUBL{i}B"],
             "dict": {"title": f"PUBD{i}", "n": i}, "tuple": (f"PUBT{i}", i), "bool": True,
@@ -406,6 +482,8 @@ class Runner:
         if "obj" in data:
             object.__getattribute__(box, "_exposed")["a"] = data["obj"]
         data["box"] = box
+        if "obj" in data:
+            data["pd"] = {"a": data["obj"], "l": [data["obj"], data["obj"]]}   # never stringified
         return data
 
     # -- one render -----------------------------------------------------------------
@@ -477,6 +555,8 @@ class Runner:
         res["events"] = mon.events
         res["touched"] = set(mon.touched)
         res["bad"] = list(mon.bad) + list(self.scan.found)
+        if shape in RELAXED_PY_SHAPES:
+            res["bad"] = [b for b in res["bad"] if b["kind"] not in ("pyobject", "pyrepr")]
         if shape in SITES.CARRIER_SHAPES:
             # the host exposed the callables themselves: handing them to filters and printing
             # their repr (which names their class) is not the subject; calling them is
@@ -664,6 +744,8 @@ def run_shard(spec: dict[str, Any], ctx: Ctx) -> None:
             if generic and not keyf:
                 # plain string/math filters: thin sample (every pair still runs once)
                 if not is_spy and rng.random() < 0.5:
+                    continue
+                if shape in SECONDARY_SHAPES and rng.random() < 0.6:
                     continue
                 nn = 1
             else:
